@@ -1,6 +1,7 @@
 import RadicaleProofs.Fold
 import RadicaleProofs.Export
 import RadicaleProofs.BulkNames
+import RadicaleProofs.TextValue
 /-
   C14 — calendar objects and contacts come back exactly as they were stored   (partial).
 
@@ -82,6 +83,37 @@ private def obj (uid tzextra : String) : List Export.Line :=
    "BEGIN:VEVENT", "UID:" ++ uid, "END:VEVENT", "END:VCALENDAR", ""].map String.toList
 example : Export.emittedTzids [obj "a" "X-A:1", obj "b" "X-B:2"] = ["Europe/Berlin".toList] := by decide +kernel
 example : (Export.body [obj "a" "X-A:1", obj "b" "X-B:2"]).length = 4 + 3 + 3 := by decide +kernel
+
+/-! ### the value layer: how vobject reads and writes the text of a value (model RadicaleModel/TextValue.lean) -/
+
+section TextValue
+open Radicale.TextValue
+
+/-- **what is written for a value is read back as that value** — any characters: commas, semicolons, backslashes,
+    quotes, line feeds (a CR or CRLF inside a value is a line feed afterwards) -/
+theorem written_value_is_read_back (v : Str) : readFirst (escape v) = norm v ∧ ('\r' ∉ v → readFirst (escape v) = v) :=
+  ⟨readFirst_escape v, fun h => by rw [readFirst_escape, norm_id v h]⟩
+
+/-- **what the server serves is a fixed point of the value layer**: whatever text a client sent for a value, the text
+    stored after one trip (read, then written) is stored unchanged by every further trip -/
+theorem served_value_is_fixed_point (raw : Str) : stored (stored raw) = stored raw := stored_stored raw
+
+/-- Finding F33 as a theorem: the reader ends the value at the first unescaped comma — the longitude of an Apple
+    structured location, the data of a `data:` URI, the second nickname are not part of what is stored -/
+theorem f33_value_cut_at_comma :
+    stored "geo:48.137154,11.576124".toList = "geo:48.137154".toList ∧
+    stored "data:image/jpeg;base64,AAECAwQF".toList = "data:image/jpeg\\;base64".toList ∧
+    stored "Johnny,JD".toList = "Johnny".toList := by decide +kernel
+
+/-- Finding F34 as a theorem: an unescaped ";" is read as text and written back escaped -/
+theorem f34_separator_comes_back_escaped : stored "M;male".toList = "M\\;male".toList := by decide +kernel
+
+/-- the reader's quirk at a trailing lone backslash (the iterator's end marker is taken for a character) -/
+example : readFirst "abc\\".toList = "abc\\eof".toList := by decide +kernel
+-- non-vacuity: a value with every special character comes back
+example : readFirst (escape "a,b;c\\d\ne\"f".toList) = "a,b;c\\d\ne\"f".toList := by decide +kernel
+
+end TextValue
 
 /-! ### whole-collection upload: the names the objects are stored under (`_upload_all_nonatomic`), model
     RadicaleModel/BulkNames.lean.  "Preserves the set of objects" needs, below all text coding, that no object of the
